@@ -66,6 +66,8 @@ op_st = st.one_of(
     st.integers(0, 5).map(lambda k: ['reg', k]),
     st.integers(0, 5).map(lambda k: ['reg', k]),
     st.integers(0, 5).map(lambda k: ['unreg', k]),
+    # the very ServiceInfo object that was unregistered earlier is registered again after plain attributes were changed on it
+    st.tuples(st.integers(0, 5), st.integers(0, 9)).map(lambda t: ['rereg', t[0], t[1]]),
     st.tuples(st.integers(0, 5), st.sampled_from(['port', 'text', 'addrs', 'host', 'weight', 'type', 'type']),
               st.sampled_from(['mutate', 'fresh']), st.integers(0, 9)).map(lambda t: ['upd', t[0], t[1], t[2], t[3]]),
     query_st.map(lambda q: ['query', q]),
@@ -111,6 +113,7 @@ class Exec:
         self.model = rp.ResponderModel()
         self.infos: Dict[int, Any] = {}       # pool index -> live ServiceInfo
         self.descs: Dict[int, Dict[str, Any]] = {}
+        self.retired: Dict[int, Any] = {}      # unregistered ServiceInfo objects (may be registered again, changed in place)
         self.stats = {'queries': 0, 'expected_answers': 0, 'suppressed_or_boundary': 0, 'after_change': 0,
                       'shared_host_query': 0, 'qm_queries': 0, 'qu_queries': 0, 'mixed_qu_qm_queries': 0, 'dont_care': 0, 'nsec_expected': 0, 'enum_queries': 0}
         self.changed = False
@@ -160,9 +163,30 @@ class Exec:
                 self.infos[k] = info
                 self.descs[k] = d
                 self.model.register(d)
+            elif kind == 'rereg':
+                if k in self.infos or k not in self.retired:
+                    return
+                info = self.retired.pop(k)
+                d = dict(self.descs[k])
+                n = op[2]
+                d['port'] = [81, 8081, 1, 4444][n % 4]
+                d['other_ttl'] = [4500, 60, 90][(n // 3) % 3]
+                d['weight'] = n
+                if d['name'].lower() in self.model.services:
+                    return
+                # (the host TTL stays: it belongs to the host name, which other services may share)
+                info.port, info.weight, info.other_ttl = d['port'], d['weight'], d['other_ttl']
+                task = await host.azc.async_register_service(info)
+                await task
+                self.infos[k] = info
+                self.descs[k] = d
+                self.model.register(d)
+                self.changed = True
+                self.stats['same_object_registered_again'] = self.stats.get('same_object_registered_again', 0) + 1
             elif kind == 'unreg':
                 if k not in self.infos:
                     return
+                self.retired[k] = self.infos[k]
                 task = await host.azc.async_unregister_service(self.infos.pop(k))
                 await task
                 self.model.unregister(self.descs[k]['name'])
